@@ -4,13 +4,14 @@ package ref
 
 import (
 	"strings"
+	"unicode"
 )
 
 // Re is a tiny regular-expression AST. Only shapes whose printed form is a
 // valid RE2 expression on its own are representable, and matching is decided
 // by an independent backtracking matcher over runes (whole-string semantics).
 type Re struct {
-	Op   string `json:"op"`             // lit, any, class, cat, alt, star, plus, opt, group, bol (^), eol ($)
+	Op   string `json:"op"`             // lit, any, class, cat, alt, star, plus, opt, group, bol (^), eol ($), fold ((?i:…)), foldall ((?i)… — only as the root)
 	Lit  string `json:"lit,omitempty"`  // lit: literal text (printed quoted); class: the member runes
 	Neg  bool   `json:"neg,omitempty"`  // class: negated
 	Subs []*Re  `json:"subs,omitempty"` // cat, alt: n; star, plus, opt, group: 1
@@ -56,7 +57,8 @@ func (r *Re) String() string {
 	case "cat":
 		var sb strings.Builder
 		for _, s := range r.Subs {
-			if s.Op == "alt" {
+			if s.Op == "alt" || s.Op == "foldall" {
+				// "(?i)" binds everything to its right up to the end of the enclosing group: fence it in
 				sb.WriteString("(?:" + s.String() + ")")
 			} else {
 				sb.WriteString(s.String())
@@ -67,6 +69,9 @@ func (r *Re) String() string {
 		parts := make([]string, len(r.Subs))
 		for i, s := range r.Subs {
 			parts[i] = s.String()
+			if s.Op == "foldall" {
+				parts[i] = "(?:" + parts[i] + ")"
+			}
 		}
 		return strings.Join(parts, "|")
 	case "star", "plus", "opt":
@@ -79,8 +84,35 @@ func (r *Re) String() string {
 		return "(?:" + r.Subs[0].String() + ")" + suffix
 	case "group":
 		return "(" + r.Subs[0].String() + ")"
+	case "fold":
+		return "(?i:" + r.Subs[0].String() + ")"
+	case "foldall":
+		return "(?i)" + r.Subs[0].String()
 	}
 	panic("bad re op " + r.Op)
+}
+
+// sameFold: a and b are equal under Unicode simple case folding (the relation RE2's (?i) uses): b lies on the
+// SimpleFold orbit of a.
+func sameFold(a, b rune) bool {
+	if a == b {
+		return true
+	}
+	for c := unicode.SimpleFold(a); c != a; c = unicode.SimpleFold(c) {
+		if c == b {
+			return true
+		}
+	}
+	return false
+}
+
+func classHas(members string, c rune, fold bool) bool {
+	for _, m := range members {
+		if m == c || (fold && sameFold(m, c)) {
+			return true
+		}
+	}
+	return false
 }
 
 // Match reports whether the whole of s is in the language of r. The decision is denotational: ends(r, S) is the
@@ -90,7 +122,7 @@ func (r *Re) Match(s string) bool {
 	rs := []rune(s)
 	start := make([]bool, len(rs)+1)
 	start[0] = true
-	return r.ends(rs, start)[len(rs)]
+	return r.ends(rs, start, false)[len(rs)]
 }
 
 func anySet(a []bool) bool {
@@ -103,7 +135,7 @@ func anySet(a []bool) bool {
 }
 
 // ends returns the set of end positions of matches of r that start at a position of `from`.
-func (r *Re) ends(s []rune, from []bool) []bool {
+func (r *Re) ends(s []rune, from []bool, fold bool) []bool {
 	out := make([]bool, len(s)+1)
 	switch r.Op {
 	case "lit":
@@ -114,7 +146,7 @@ func (r *Re) ends(s []rune, from []bool) []bool {
 			}
 			eq := true
 			for j, c := range l {
-				if s[i+j] != c {
+				if s[i+j] != c && !(fold && sameFold(s[i+j], c)) {
 					eq = false
 					break
 				}
@@ -141,7 +173,7 @@ func (r *Re) ends(s []rune, from []bool) []bool {
 		return out
 	case "class":
 		for i, ok := range from {
-			if ok && i < len(s) && strings.ContainsRune(r.Lit, s[i]) != r.Neg {
+			if ok && i < len(s) && classHas(r.Lit, s[i], fold) != r.Neg {
 				out[i+1] = true
 			}
 		}
@@ -149,7 +181,7 @@ func (r *Re) ends(s []rune, from []bool) []bool {
 	case "cat":
 		cur := from
 		for _, sub := range r.Subs {
-			cur = sub.ends(s, cur)
+			cur = sub.ends(s, cur, fold)
 			if !anySet(cur) {
 				return out
 			}
@@ -158,7 +190,7 @@ func (r *Re) ends(s []rune, from []bool) []bool {
 		return out
 	case "alt":
 		for _, sub := range r.Subs {
-			for i, ok := range sub.ends(s, from) {
+			for i, ok := range sub.ends(s, from, fold) {
 				if ok {
 					out[i] = true
 				}
@@ -166,31 +198,33 @@ func (r *Re) ends(s []rune, from []bool) []bool {
 		}
 		return out
 	case "group":
-		return r.Subs[0].ends(s, from)
+		return r.Subs[0].ends(s, from, fold)
+	case "fold", "foldall":
+		return r.Subs[0].ends(s, from, true)
 	case "opt":
 		copy(out, from)
-		for i, ok := range r.Subs[0].ends(s, from) {
+		for i, ok := range r.Subs[0].ends(s, from, fold) {
 			if ok {
 				out[i] = true
 			}
 		}
 		return out
 	case "star":
-		return starEnds(r.Subs[0], s, from)
+		return starEnds(r.Subs[0], s, from, fold)
 	case "plus":
-		return starEnds(r.Subs[0], s, r.Subs[0].ends(s, from))
+		return starEnds(r.Subs[0], s, r.Subs[0].ends(s, from, fold), fold)
 	}
 	panic("bad re op " + r.Op)
 }
 
 // starEnds: least fixed point of R = from ∪ ends(sub, R), computed on the frontier of new positions.
-func starEnds(sub *Re, s []rune, from []bool) []bool {
+func starEnds(sub *Re, s []rune, from []bool, fold bool) []bool {
 	out := make([]bool, len(s)+1)
 	copy(out, from)
 	frontier := from
 	for anySet(frontier) {
 		next := make([]bool, len(s)+1)
-		for i, ok := range sub.ends(s, frontier) {
+		for i, ok := range sub.ends(s, frontier, fold) {
 			if ok && !out[i] {
 				out[i] = true
 				next[i] = true
